@@ -402,6 +402,7 @@ pub struct Ul {
     pub reply_len: usize,      // body of the application's reply to the final block (a large one leaves as Block2 blocks)
     pub reply_optset: u8,      // options the application puts on that reply
     pub b2hint: Option<u8>,    // the final block also names a Block2 size
+    pub empty_final: bool,     // a body that is a whole number of blocks is sent as full blocks (more = 1) plus an empty final one
 }
 
 pub fn upload(out: &mut Out, start: Instant, u: &Ul, r: &mut Rng, xid: u64) {
@@ -433,7 +434,7 @@ pub fn upload(out: &mut Out, start: Instant, u: &Ul, r: &mut Rng, xid: u64) {
     'outer: while k < body.len() / 16 + 4 {
         let sz = 1usize << (cur_szx + 4);
         let hi = (off + sz).min(body.len());
-        let more = hi < body.len();
+        let more = hi < body.len() || (u.empty_final && off < body.len() && body.len() % sz == 0);
         let chunk = body[off..hi].to_vec();
         let num = off / sz;
         let dup = u.dups[k % u.dups.len()].max(1);
@@ -441,7 +442,23 @@ pub fn upload(out: &mut Out, start: Instant, u: &Ul, r: &mut Rng, xid: u64) {
         for _ in 0..dup {
             mid = mid.wrapping_add(1);
             let tl = if r.chance(1, 3) { r.below(u.toklen as u64 + 1) as usize } else { u.toklen };
-            let extra = if u.grow > 0 && k > 0 { vec![(15u16, vec![b'q'; u.grow])] } else { vec![] };
+            let mut extra = if u.grow > 0 && k > 0 { vec![(15u16, vec![b'q'; u.grow])] } else { vec![] };
+            // options a client may put on the blocks of an upload: a Size1 estimate (exact, too small, too
+            // large, only on block 0 or on every block), an If-Match, a Content-Format - none of them changes
+            // what is reassembled
+            if u.grow == 0 {
+                let est = match xid % 5 { 0 => Some(body.len()), 1 => Some(body.len() + 200), 2 => Some(body.len() / 2), 3 => Some(70_000), _ => None };
+                if let Some(e) = est {
+                    if xid % 2 == 0 || k == 0 {
+                        let mut v = (e as u32).to_be_bytes().to_vec();
+                        while v.first() == Some(&0) { v.remove(0); }
+                        extra.push((60u16, v));
+                    }
+                }
+                if xid % 3 == 1 { extra.push((1u16, vec![9, 9])); }
+                if xid % 7 == 2 { extra.push((12u16, vec![42])); }
+                extra.sort_by_key(|x| x.0);
+            }
             let b2 = if more { None } else { u.b2hint.map(|s| (0u16, false, s)) };
             let pkt = mkreq(&ReqSpec { code: 3, typ: 0, mid, tok: r.bytes(tl), segs: &u.segs, b1: Some((num as u16, more, cur_szx)), b2, pay: chunk.clone(), extra });
             let (o, mut req) = h.ireq(out, ep, &pkt, &tag);
@@ -575,7 +592,7 @@ pub fn rec_block1(args: &Args) {
         let m = match r.below(3) { 0 => 1280usize.max(ov + 12 + bs), 1 => ov + 12 + bs + r.below(40) as usize, _ => (ov + 12 + bs).max(1152) };
         let dups: Vec<usize> = match r.below(4) { 0 => vec![1], 1 => vec![2], 2 => vec![1, 3, 1, 2], _ => vec![3, 1] };
         let abandoned = if r.chance(1, 2) { r.below(7) as usize } else { 0 };
-        let u = Ul { body_len, szx, m, dups, abandoned, abandoned_len: bs * 7 + 5, toklen, segs: sg, follow: false, grow: 0, reply_len: match r.below(3) { 0 => 0, 1 => r.below(20) as usize, _ => m + r.below(300) as usize }, reply_optset: r.below(6) as u8, b2hint: if r.chance(1, 4) { Some(r.below(7) as u8) } else { None } };
+        let u = Ul { body_len, szx, m, dups, abandoned, abandoned_len: bs * 7 + 5, toklen, segs: sg, follow: false, grow: 0, reply_len: match r.below(3) { 0 => 0, 1 => r.below(20) as usize, _ => m + r.below(300) as usize }, reply_optset: r.below(6) as u8, b2hint: if r.chance(1, 4) { Some(r.below(7) as u8) } else { None }, empty_final: i % 4 == 2 && r.chance(1, 2) };
         xid += 1;
         upload(&mut out, start, &u, &mut r, xid);
     }
@@ -584,7 +601,7 @@ pub fn rec_block1(args: &Args) {
     for (body_len, szx) in if thorough { vec![(4200usize, 0u8), (5000, 0), (4097, 0), (8300, 1)] } else { vec![(4200usize, 0u8)] } {
         let probe = mkreq(&ReqSpec { code: 3, typ: 0, mid: 0, tok: vec![0; 2], segs: &segs[0], b1: Some((300, true, szx)), b2: None, pay: vec![], extra: vec![] });
         let ov = probe.to_bytes_unlimited().unwrap().len();
-        let u = Ul { body_len, szx, m: ov + 12 + (16usize << szx) + 40, dups: vec![1, 1, 1, 2], abandoned: 0, abandoned_len: 0, toklen: 2, segs: segs[0].clone(), follow: false, grow: 0, reply_len: 0, reply_optset: 0, b2hint: None };
+        let u = Ul { body_len, szx, m: ov + 12 + (16usize << szx) + 40, dups: vec![1, 1, 1, 2], abandoned: 0, abandoned_len: 0, toklen: 2, segs: segs[0].clone(), follow: false, grow: 0, reply_len: 0, reply_optset: 0, b2hint: None, empty_final: false };
         xid += 1;
         upload(&mut out, start, &u, &mut r, xid);
     }
@@ -668,7 +685,10 @@ pub fn rec_budget(args: &Args) {
                     // enough, and a little more
                     for d in [-9i64, -8, -7, -4, 0, 1] {
                         let bs = 16usize << p;
-                        let nblocks = if thorough && d == 0 && toklen == 8 && p == 1 { 4100 } else { 19 };
+                        // (every event carries the cached body in its snapshot: a transfer of b blocks costs b^2;
+                        // 270 blocks reach the two-byte Block2 values of block numbers above 255 in the thorough
+                        // tier, three-byte values (block 4096 on) are left to C13's exhaustive tables)
+                        let nblocks = if thorough && d == 0 && toklen == 8 && p == 1 { 270 } else { 19 };
                         let dl = Dl { body_len: bs * nblocks + 3, m: (ov as i64 + 12 + bs as i64 + d) as usize, first_szx: if d % 2 == 0 { Some(p as u8) } else { None }, reduce: None, optset, toklen, segs: sg.clone(), typ: 0, prior: 0, reqopts: 0 };
                         xid += 1;
                         download(&mut out, start, &dl, &mut r, xid);
@@ -685,14 +705,14 @@ pub fn rec_budget(args: &Args) {
                 let ov = probe.to_bytes_unlimited().unwrap().len();
                 let bs = 16usize << szx.min(6);
                 let m = match r.below(4) { 0 => ov + 28, 1 => ov + 12 + bs + r.below(3) as usize, 2 => ov + 12 + bs + 31 + r.below(3) as usize, _ => r.range(ov as u64 + 28, 1280) as usize }.min(1280).max(ov + 28);
-                let u = Ul { body_len: (3 * bs + 5).min(2500), szx, m, dups: vec![1], abandoned: 0, abandoned_len: 0, toklen, segs: sg.clone(), follow: true, grow: 0, reply_len: 0, reply_optset: 0, b2hint: None };
+                let u = Ul { body_len: (3 * bs + 5).min(2500), szx, m, dups: vec![1], abandoned: 0, abandoned_len: 0, toklen, segs: sg.clone(), follow: true, grow: 0, reply_len: 0, reply_optset: 0, b2hint: None, empty_final: false };
                 xid += 1;
                 upload(&mut out, start, &u, &mut r, xid);
                 // the overhead grows in the middle of the upload (an extra option from the second block on)
                 // while the budget only just admitted the first block: later acknowledgements must shrink
                 let grow = *r.pick(&[13usize, 24, 40]);
                 let m2 = (ov + 12 + bs + r.below(12) as usize).min(1280).max(ov + grow + 28);
-                let u = Ul { body_len: (3 * bs + 5).min(2500), szx: szx.min(6), m: m2, dups: vec![1], abandoned: 0, abandoned_len: 0, toklen, segs: sg.clone(), follow: true, grow, reply_len: 0, reply_optset: 0, b2hint: None };
+                let u = Ul { body_len: (3 * bs + 5).min(2500), szx: szx.min(6), m: m2, dups: vec![1], abandoned: 0, abandoned_len: 0, toklen, segs: sg.clone(), follow: true, grow, reply_len: 0, reply_optset: 0, b2hint: None, empty_final: false };
                 xid += 1;
                 upload(&mut out, start, &u, &mut r, xid);
                 // an abandoned upload left a buffer; a client resumes at a non-zero block with a size the budget does not admit
@@ -1088,6 +1108,27 @@ pub fn rec_isolation(args: &Args) {
                 out.ev(json!({"op": "solo_cmp", "x": xid, "order": order, "solo": solo, "inter": inter}));
             }
         }
+    }
+    // a transfer whose steps are separated by N plain requests on other keys of the same endpoint: however
+    // many, it sees what it sees when run alone
+    for (kind, nother) in if thorough { vec![(0usize, 20usize), (1, 20), (0, 300), (1, 300)] } else { vec![(0usize, 20usize), (1, 40)] } {
+        let script = transfer_script(kind, "e1", if kind == 0 { 3 } else { 1 }, &ab, &mut r, 5 + kind, 4);
+        let mut hs = H::new(&mut out, 1152, 3_600_000, start);
+        let solo: Vec<Value> = script.iter().map(|st| run_step(&mut hs, &mut out, st, &json!({"kind": "solo"}))).collect();
+        xid += 1;
+        let mut h = H::new(&mut out, 1152, 3_600_000, start);
+        let mut inter: Vec<Value> = vec![];
+        let mut other = 0usize;
+        for st in &script {
+            inter.push(run_step(&mut h, &mut out, st, &json!({"kind": "crowded", "x": xid})));
+            for _ in 0..nother {
+                other += 1;
+                let p = mkreq(&ReqSpec { code: 1, typ: 0, mid: other as u16, tok: vec![3], segs: &[format!("o{}", other).into_bytes()], b1: None, b2: None, pay: vec![], extra: vec![] });
+                let st2 = json!({"op": "ireq", "ep": "e1", "req": jpkt(&p), "app": {"some": true, "v": {"code": 0x45, "pay": [1, 2, 3], "opts": []}}});
+                let _ = run_step(&mut h, &mut out, &st2, &json!({"kind": "crowd"}));
+            }
+        }
+        out.ev(json!({"op": "solo_cmp", "x": xid, "order": [], "solo": [solo], "inter": [inter]}));
     }
     let n = out.finish();
     println!("{}", json!({"events": n, "interleavings": xid}));
